@@ -135,7 +135,7 @@ def shape_of_ast(node):
         op = node.op.lower()
         return wrap(node, ('neg' if op == '-' else op, shape_of_ast(node.args[0])))
     if isinstance(node, A.Tuple):
-        return ('tuple',) + tuple(shape_of_ast(a) for a in node.items)
+        return wrap(node, ('tuple',) + tuple(shape_of_ast(a) for a in node.items))
     if isinstance(node, A.NullConstant):
         return wrap(node, 'leaf')
     if isinstance(node, A.Constant):
